@@ -8,7 +8,7 @@ pub open spec fn sorted_by_largest(files: Seq<Arc<FileMetadata>>) -> bool {
         ik_le(fm_largest(&*#[trigger] files[i]), fm_largest(&*#[trigger] files[j]))
 }
 
-//@fn src/versioning/utils.rs :: find_file_with_upper_bound_range props: C01 C04 C07
+//@fn src/versioning/utils.rs :: find_file_with_upper_bound_range props: C01 C03 C04 C07
 //@sig
     requires
         sorted_by_largest(files@),
